@@ -26,10 +26,13 @@ impl Ctl {
         let mut b = self.m.lock().unwrap();
         b.trace.push((t, name.to_string()));
         if b.free_run { return; }
-        // give up the turn and pick the next scheduled runnable thread
-        b.turn = None;
-        self.advance(&mut b);
-        self.cv.notify_all();
+        // only the thread that holds the turn gives it up and lets the schedule pick the next one;
+        // a thread arriving at its first point without the turn just waits
+        if b.turn == Some(t) {
+            b.turn = None;
+            self.advance(&mut b);
+            self.cv.notify_all();
+        }
         let deadline = std::time::Instant::now() + std::time::Duration::from_millis(3000);
         while !(b.free_run || b.turn == Some(t)) {
             let left = deadline.saturating_duration_since(std::time::Instant::now());
@@ -43,7 +46,8 @@ impl Ctl {
             b.pos += 1;
             if t < b.done.len() && !b.done[t] { b.turn = Some(t); return; }
         }
-        b.free_run = true;
+        // schedule exhausted: the lowest unfinished thread runs
+        match b.done.iter().position(|d| !d) { Some(t) => b.turn = Some(t), None => b.free_run = true }
     }
     fn finish(&self, t: usize) {
         let mut b = self.m.lock().unwrap();
@@ -88,7 +92,11 @@ pub fn run_one(line: &str, show_trace: bool) -> String {
             TID.with(|c| c.set(t));
             ctl.yield_at(t, "start");
             let r = std::panic::catch_unwind(std::panic::AssertUnwindSafe(|| {
-                for (s, v) in prog { if s < sinks.len() { sinks[s].send(v); ctl.yield_at(t, "sent"); } }
+                let n = prog.len();
+                for (k, (s, v)) in prog.into_iter().enumerate() {
+                    if s < sinks.len() { sinks[s].send(v); }
+                    if k + 1 < n { ctl.yield_at(t, "sent"); }   // between sends only: a finished thread needs no further turn
+                }
             }));
             if r.is_err() { *panicked.lock().unwrap() = true; }
             TID.with(|c| c.set(usize::MAX));
